@@ -257,22 +257,35 @@ func ZZ_C01_Binary(sv *zzsv.T) {
 	}
 }
 
-var zzUnOps = []string{"-", "√"}
+var zzUnOps = []string{"-", "√", "!"}
 
 // ZZ_C01_Unary: prefix minus and square root over all operand types.
 func ZZ_C01_Unary(sv *zzsv.T) {
 	op := zzUnOps[sv.Choice("op", len(zzUnOps))]
 	t := sv.Choice("type", nTypes)
 	v := zzValue(sv, "a", t, 2)
-	src := "return " + op + "a;"
+	// the operand reaches the operator as a variable, as a field of the host
+	// object (built by reflection) or as the result of a host function
+	e := New("")
+	obj, expr, ok := zzProvide(sv, e, "a", v, sv.Choice("provenance", 3))
+	sv.Assume(ok)
+	src := "return " + op + expr + ";"
+	e.Script = src
 	sv.Note("script", src)
 	sv.Note("types", op+zzTypeNames[t])
-	e := New(src)
-	e.SetVariable("a", v.obj())
 	sv.Assume(e.Prepare() == nil)
-	out, err := e.Execute(nil)
+	out, err := e.Execute(obj)
 	zzDescribe(sv, "result", out, err)
 	switch {
+	case op == "!":
+		// `!` negates a boolean, gives true for null and false for anything else
+		want := zBool(false)
+		if t == tBool {
+			want = zBool(!v.b)
+		} else if t == tNull {
+			want = zBool(true)
+		}
+		sv.Assert("C01.unary.value", err == nil && zzSame(sv, out, want))
 	case op == "-" && t == tInt:
 		sv.Assert("C01.unary.value", err == nil && zzSame(sv, out, zInt(-v.i)))
 	case op == "-" && t == tFloat:
